@@ -635,7 +635,14 @@ def rule_regex(repo: Repo) -> RuleResult:
         single_digit = any(_is_digit_item(op, av) and op not in (sre_c.MAX_REPEAT, sre_c.MIN_REPEAT) for op, av in pre) and \
             not any(op in (sre_c.MAX_REPEAT, sre_c.MIN_REPEAT) and av[1] > 1 and _is_digit_item(op, av) for op, av in pre)
         anchored = first is not None and (first[0] == sre_c.AT or first[0] in (sre_c.ASSERT, sre_c.ASSERT_NOT))
-        if has_digit and has_colon and anchored and single_digit:
+        line_start = first is not None and first[0] == sre_c.AT and first[1] in (sre_c.AT_BEGINNING, sre_c.AT_BEGINNING_STRING, sre_c.AT_BEGINNING_LINE)
+        if has_digit and has_colon and line_start:
+            # Metric-FF prints the first step as 'step    0: ACTION' and the others indented: a pattern tied to the start of the text /
+            # of a line (only blanks allowed before the number) cannot match the first step (and, without MULTILINE, no later one either)
+            r.fail(Finding("C19.regex", owner, "prefix-at-line-start", f"the step pattern {pat!r} is anchored at the start of the text / line: the first step line "
+                           f"'step    0: ...' has the word 'step' in front of the number and is dropped"
+                           + ("" if multiline else "; without re.MULTILINE '^' matches only at the very beginning of the log")))
+        elif has_digit and has_colon and anchored and single_digit:
             r.fail(Finding("C19.regex", owner, "prefix-anchored", f"the step prefix of {pat!r} is a single digit behind a left anchor: step numbers with "
                            f"two or more digits (10:, 11:, ...) are not matched and those steps are dropped"))
         elif has_digit and has_colon:
